@@ -72,6 +72,10 @@ package parser
 //@   requires ls(l) != nil && ls(l).spaces >= 0
 //@   modifies reach(l), ls(l).spaces, ls(l).linenum, ls(l).inSqBrackets, ls(l).parens, ls(l).blockTextLine, ls(l).gotNewLine, ls(l).gotHTTPVerb, ls(l).gotView, ls(l).noMoreImports
 //@   ensures [spaces-nonneg] ls(l).spaces >= 0
+// The indentation width an action records for the line is zero or the tab-expanded width that calcSpaces measured —
+// never a raw character count, which would disagree with the widths other modes push on the indentation stack.
+//@   ghostset @call:grammar.calcSpaces measured
+//@   assert @setfield:F.parser.lexerState.spaces [recorded-width-is-zero-or-measured-by-calcSpaces] stored == 0 || ghost("measured")
 
 //@ func getNextToken
 //@   requires l != nil && l.BaseLexer != nil
